@@ -82,6 +82,9 @@ type Step struct {
 	Src   string   `json:"src"`
 	API   string   `json:"api,omitempty"`   // "" Run | parse (Parse + RunAfterParsed) | parse2 (… evaluated twice) | expr (RunExpr) | exprLocal (RunExpr sharing variables)
 	Kinds []string `json:"kinds,omitempty"` // randomness constructs and the paths they sit on (from the AST; part of failure signatures)
+	// SetDefSide: the host changes Config.DefaultDiceSideExpr to this (non-empty) text before the step, as it does when
+	// a group switches game system; the setting in force decides, whatever the context evaluated before
+	SetDefSide string `json:"setDefSide,omitempty"`
 }
 
 type Case struct {
@@ -333,6 +336,9 @@ func newSubject(cfg vmx.Cfg, log *[]stEvent, reuse string, host string, reuseSee
 func runStep(vm *ds.Context, st Step, log *[]stEvent, w *world, sp StepPlan, probe uint64) StepOut {
 	var o StepOut
 	*log = (*log)[:0]
+	if st.SetDefSide != "" {
+		vm.Config.DefaultDiceSideExpr = st.SetDefSide
+	}
 	if w != nil {
 		w.curSrc = st.Src
 		for _, a := range sp.Before {
@@ -689,6 +695,11 @@ func judge(c Case, s *rt.Section) (v verdict) {
 		}
 		cfg := c.Cfg
 		cfg.SeedHex = clean.outs[cut].Seed // what a host stored with GetCurSeed after step cut
+		for i := 0; i <= cut; i++ {
+			if c.Steps[i].SetDefSide != "" {
+				cfg.DefSide = c.Steps[i].SetDefSide // the fresh context gets the configuration in force
+			}
+		}
 		var log []stEvent
 		r := newSubject(cfg, &log, "", c.Host)
 		if got := vmx.SeedHex(r); got != cfg.SeedHex {
@@ -911,6 +922,9 @@ func drawCase(t *rapid.T, s *rt.Section) Case {
 			if !strings.HasPrefix(st.Src, "^st") {
 				st.API = "exprLocal"
 			}
+		}
+		if i > 0 && c.Cfg.DefSide != "" && !c.NoRandom && rapid.IntRange(0, 3).Draw(t, "setDefSide") == 0 {
+			st.SetDefSide = rapid.SampledFrom(defSidePool).Draw(t, "newDefSide")
 		}
 		c.Steps = append(c.Steps, st)
 	}
